@@ -80,3 +80,40 @@ Qed.
 
 Print Assumptions frame_all_pkts_ids.
 Print Assumptions next_no_read.
+
+(* ---- completion counts at the level of result units (C14) ---- *)
+From MsqlVerif Require Import Model.Resultset Spec.Client Spec.Render.
+
+Lemma un_completed errtab bin r i : un_q errtab bin (QCompleted r i) = Some [UOk r i].
+Proof. reflexivity. Qed.
+Lemma un_complete_one errtab bin r i k :
+  un_q errtab bin (QCompleteOne r i k) = ocons (UOk r i) (un_q errtab bin k).
+Proof. reflexivity. Qed.
+
+(* a zero-column resultset: only end_row / write_row count, write_col does not; the unit is an OK
+   whose affected-rows is the number of rows ended and whose last-insert-id is 0 *)
+Inductive zstep := ZEnd (e : onerr) | ZRow (vs : list value) (e : onerr) | ZCol (v : value) (e : onerr).
+Fixpoint zprog (steps : list zstep) (fin : rprog) : rprog :=
+  match steps with
+  | [] => fin
+  | ZEnd e :: r => REndRow e (zprog r fin)
+  | ZRow vs e :: r => RWriteRow vs e (zprog r fin)
+  | ZCol v e :: r => RWriteCol v e (zprog r fin)
+  end.
+Definition zcount (steps : list zstep) : nat :=
+  length (filter (fun s => match s with ZCol _ _ => false | _ => true end) steps).
+
+Lemma un_zero_cols_gen errtab bin steps cur done cnt :
+  un_r errtab bin [] cur done cnt (zprog steps RFinish) = Some [UOk (N.of_nat (cnt + zcount steps)) 0].
+Proof.
+  revert cur done cnt. induction steps as [|s steps IH]; intros cur done cnt.
+  - cbn [zprog un_r zcount filter length]. rewrite Nat.add_0_r. reflexivity.
+  - destruct s as [e|vs e|v e]; cbn [zprog un_r].
+    + rewrite IH. unfold zcount. cbn [filter length]. do 3 f_equal. lia.
+    + rewrite IH. unfold zcount. cbn [filter length]. do 3 f_equal. lia.
+    + rewrite IH. unfold zcount. cbn [filter length]. reflexivity.
+Qed.
+Lemma un_zero_cols errtab bin steps :
+  un_q errtab bin (QStart [] (zprog steps RFinish)) = Some [UOk (N.of_nat (zcount steps)) 0].
+Proof. cbn [un_q]. apply un_zero_cols_gen. Qed.
+Print Assumptions un_zero_cols.
